@@ -250,6 +250,77 @@ def eval_exact(tree, defs, x):
     return None if b == 0 else a / b
 
 
+def err_units(tree, defs, x, spread):
+    """(value, E): float evaluation at the point x and a bound E such that the rounding error of evaluating the formula in
+    double precision on draws around x is about 1e-16 * E (x_i = v_i + e_i * o is itself rounded: E_leaf = |v_i| + 4 e_i)"""
+    t = tree[0]
+    if t == "var":
+        return x[tree[1]], abs(x[tree[1]]) + 4 * spread[tree[1]]
+    if t == "cst":
+        return float.fromhex(tree[1]), 0.0
+    if t == "ref":
+        return err_units(defs[tree[1]], defs, x, spread)
+    if t in ("neg", "sqrtsq"):
+        a, ea = err_units(tree[1], defs, x, spread)
+        return (-a if t == "neg" else abs(a)), ea + abs(a)
+    a, ea = err_units(tree[1], defs, x, spread)
+    b, eb = err_units(tree[2], defs, x, spread)
+    if t == "add":
+        return a + b, ea + eb + abs(a + b)
+    if t == "sub":
+        return a - b, ea + eb + abs(a - b)
+    if t == "mul":
+        return a * b, abs(a) * eb + abs(b) * ea + abs(a * b)
+    bb = max(abs(b), eb, 1e-150)
+    try:
+        return a / (b if abs(b) >= 1e-150 else bb), ea / bb + abs(a) * eb / (bb * bb) + abs(a) / bb
+    except (ZeroDivisionError, OverflowError):
+        return 0.0, float("inf")
+
+
+def rounding_units(case):
+    """E of the final formula at the central values of the sources (largest over the source edits of the history)"""
+    vs, es = [], []
+    for s in case["sources"]:
+        if s["kind"] == "single":
+            vs.append(float.fromhex(s["value"]))
+            es.append(float.fromhex(s["error"]))
+        else:
+            d = [float.fromhex(h) for h in s["data"]]
+            vs.append(sum(d) / len(d))
+            es.append(max(d) - min(d))
+    best = err_units(case["defs"][-1], case["defs"], vs, es)[1]
+    for o in case.get("ops", []):
+        if o[0] == "set_src":
+            vs2, es2 = list(vs), list(es)
+            vs2[o[1]], es2[o[1]] = float.fromhex(o[2]), float.fromhex(o[3])
+            best = max(best, err_units(case["defs"][-1], case["defs"], vs2, es2)[1])
+            vs, es = vs2, es2
+    return best
+
+
+def ill_conditioned(case, run):
+    """True when the spread of the simulated outcomes is so small compared with the magnitudes inside the formula that
+    double-precision rounding (about 1e-16 * E) is visible at the 1e-9 level of the comparison: such inputs say nothing
+    about the implementation (x*x - 0.5 with x about 1e-12; products of differences of numbers near 2^30)"""
+    E = rounding_units(case)
+    if not (E > 0) or not math.isfinite(E):
+        return False
+    spreads = []
+    for ob, _, _ in run["obs"]:
+        if ob[0] == "samples" and len(ob[1]) >= 2:
+            xs = [float.fromhex(x) for x in ob[1]]
+            spreads.append(max(xs) - min(xs))
+        elif ob[0] == "err" and ob[1] is not None:
+            spreads.append(abs(float.fromhex(ob[1])))
+    spreads = [s for s in spreads if s > 0] or ([0.0] if spreads else [])
+    if not spreads:
+        return False
+    if min(spreads) == 0.0 and all(float.fromhex(e) == 0.0 for _, e, _ in run["srcs"]):
+        return False
+    return min(spreads) < 1e-6 * E
+
+
 # ---------------------------------------------------------------------------------------------------
 # sources
 # ---------------------------------------------------------------------------------------------------
@@ -275,14 +346,14 @@ def gen_source_scaled(rng, repeated_ok=True, positive_error=False, scale=None, o
     return {"kind": "single", "value": fx(v), "error": fx(e)}
 
 
-def gen_sources(rng, k, repeated_ok=True, positive_error=False):
+def gen_sources(rng, k, repeated_ok=True, positive_error=False, allow_offset=True):
     """k sources of one problem: ordinary / all scaled by 1e-9, 1e-12 or 1e9 / with a large common offset; now and then
     equal central values of distinct measurements and equal names"""
     r = rng.random()
     scale = offset = None
     if r < 0.15:
         scale = rng.choice(SCALES)
-    elif r < 0.2:
+    elif r < 0.2 and allow_offset:
         offset = 2.0 ** 30
     out = [gen_source_scaled(rng, repeated_ok, positive_error, scale, offset) for _ in range(k)]
     singles = [s for s in out if s["kind"] == "single"]
@@ -526,9 +597,12 @@ class Session:
                     sobjs.append(build_value(d, self.meas, sobjs))
                 sib = sobjs[-1]
                 sib.error_method = q.ErrorMethod.MONTE_CARLO
-                _ = sib.value, sib.error
-                sib.mc.use_mode_with_confidence(0.5)
-                _ = sib.value
+                try:
+                    _ = sib.value, sib.error
+                    sib.mc.use_mode_with_confidence(0.5)
+                    _ = sib.value
+                except ValueError:       # numpy refuses 100 bins on a sample set a few ulps wide: the sibling's business
+                    pass
             finally:
                 if self.script is not None:
                     self.script.muted = muted
